@@ -22,6 +22,7 @@
 #include <shark/Models/Kernels/ModelKernel.h>
 #include <shark/Models/Kernels/PointSetKernel.h>
 #include <shark/Models/LinearModel.h>
+#include <shark/Algorithms/Trainers/NormalizeKernelUnitVariance.h>
 #include <shark/Data/Dataset.h>
 #include <boost/shared_ptr.hpp>
 #include <cstring>
@@ -152,6 +153,9 @@ struct Builder{
 	bool hasNorm;       // contains a NormalizedKernel: rounding differs between the evaluation paths
 	bool inexact;       // contains exp/sqrt: values are not exact
 	std::string paramOracle;   // parameter bookkeeping of composed kernels (ProductKernel::m_numberOfParameters)
+	std::vector<ScaledKernel<I>*> scaled;   // the ScaledKernel objects in pre-order (op setfactor)
+	std::vector<WeightedSumKernel<I>*> wsums; // the WeightedSumKernel / SubrangeKernel objects, inner ones first (op adaptall)
+	K* keepW(K* k){ if(WeightedSumKernel<I>* w = dynamic_cast<WeightedSumKernel<I>*>(k)) wsums.push_back(w); return keep(k); }
 	Builder(): hasNorm(false), inexact(false){}
 	K* keep(K* k){ pool.push_back(boost::shared_ptr<K>(k)); return k; }
 	K* parse(std::vector<std::string> const& t, std::size_t& p){
@@ -162,6 +166,15 @@ struct Builder{
 		if(op == "poly"){
 			if(p + 2 > t.size() || !parseNat(t[p], n) || !parseVal(t[p+1], v)) return 0;
 			p += 2; return keep(new PolynomialKernel<I>((unsigned)n, v, false, false));
+		}
+		// unconstrained parameter encodings (parameter = log of the value); same kernel values
+		if(op == "polyu"){
+			if(p + 2 > t.size() || !parseNat(t[p], n) || !parseVal(t[p+1], v)) return 0;
+			p += 2; return keep(new PolynomialKernel<I>((unsigned)n, v, false, true));
+		}
+		if(op == "gaussu"){
+			if(p + 1 > t.size() || !parseVal(t[p], v)) return 0;
+			p += 1; inexact = true; return keep(new GaussianRbfKernel<I>(v, true));
 		}
 		if(op == "mono"){
 			if(p + 1 > t.size() || !parseNat(t[p], n)) return 0;
@@ -188,8 +201,13 @@ struct Builder{
 		}
 		if(op == "scaled"){
 			if(p + 1 > t.size() || !parseVal(t[p], v)) return 0;
-			p += 1; K* base = parse(t, p); if(!base) return 0;
-			return keep(new ScaledKernel<I>(base, v));
+			p += 1;
+			std::size_t slot = scaled.size(); scaled.push_back(0);      // pre-order position
+			K* base = parse(t, p); if(!base) return 0;
+			// factor 1 is the constructor default (`ScaledKernel<> k(&base)`): use that constructor call
+			ScaledKernel<I>* sk = (v == 1.0) ? new ScaledKernel<I>(base) : new ScaledKernel<I>(base, v);
+			scaled[slot] = sk;
+			return keep(sk);
 		}
 		if(op == "wsum"){
 			double sum;
@@ -202,7 +220,7 @@ struct Builder{
 			}
 			WSumDirect<I>* k = new WSumDirect<I>(ks);
 			k->setDirect(w, sum);
-			return keep(k);
+			return keepW(k);
 		}
 		if(op == "wsump"){
 			if(p + 1 > t.size() || !parseNat(t[p], n) || n == 0) return 0;
@@ -214,7 +232,7 @@ struct Builder{
 			WeightedSumKernel<I>* k = new WeightedSumKernel<I>(ks);
 			k->setParameterVector(ps);
 			inexact = true;
-			return keep(k);
+			return keepW(k);
 		}
 		if(op == "prod"){
 			if(p + 1 > t.size() || !parseNat(t[p], n)) return 0;
@@ -257,7 +275,7 @@ struct Builder{
 			}
 			inexact = true;
 			K* k = MakeSubk<I>::make(ks, ranges, ps);
-			return k ? keep(k) : 0;
+			return k ? keepW(k) : 0;
 		}
 		if(op == "sub"){
 			if(p + 2 > t.size() || !parseNat(t[p], a) || !parseNat(t[p+1], b)) return 0;
@@ -370,6 +388,65 @@ struct Session{
 		RealMatrix D = k->featureDistanceSqr(bi, bj);
 		if(!(std::fabs(D(0,0) - ref) <= 1e-12*(std::fabs(k11) + 2*std::fabs(k12) + std::fabs(k22)))) out += " !oracle feature-distance-batch " + val(D(0,0));
 		return out;
+	}
+	// batch version of featureDistanceSqr on a whole block, against the definition built from single evaluations
+	std::string fdistBlock(std::size_t a, std::size_t b, std::size_t c, std::size_t d) const{
+		if(!(a < b && b <= pts.size() && c < d && d <= pts.size())) return "bad-op";
+		typename Batch<I>::type b1 = batch(a,b), b2 = batch(c,d);
+		RealMatrix D = k->featureDistanceSqr(b1, b2);
+		std::string out = showMat(D);
+		if(D.size1() != b-a || D.size2() != d-c) return out + " !oracle feature-distance-shape";
+		for(std::size_t i = 0; i != D.size1(); ++i) for(std::size_t j = 0; j != D.size2(); ++j){
+			double k11 = k->eval(pts[a+i],pts[a+i]), k12 = k->eval(pts[a+i],pts[c+j]), k22 = k->eval(pts[c+j],pts[c+j]);
+			double ref = k11 - 2*k12 + k22;
+			if(!(std::fabs(D(i,j) - ref) <= 1e-12*(std::fabs(k11) + 2*std::fabs(k12) + std::fabs(k22)))){
+				std::ostringstream os; os << " !oracle feature-distance-batch (" << i << "," << j << ") got=" << val(D(i,j)) << " definition=" << val(ref);
+				return out + os.str();
+			}
+		}
+		return out;
+	}
+	// what a kernel object CLAIMS must hold on all current points: IS_NORMALIZED => unit diagonal, and
+	// featureDistanceSqr (single + batch, both trust the flag) == k(x,x) - 2k(x,z) + k(z,z)
+	std::string claimOracle(K const& kk) const{
+		std::size_t n = pts.size();
+		if(n == 0) return "";
+		std::ostringstream os;
+		if(kk.isNormalized())
+			for(std::size_t i = 0; i != n; ++i){
+				double v = kk.eval(pts[i], pts[i]);
+				if(!(ulps(v, 1.0) <= 4)){ os << " !oracle normalized-diag (" << i << ") k(x,x)=" << val(v); return os.str(); }
+			}
+		typename Batch<I>::type all = batch(0, n);
+		RealMatrix D = kk.featureDistanceSqr(all, all);
+		for(std::size_t i = 0; i != n; ++i) for(std::size_t j = 0; j != n; ++j){
+			double k11 = kk.eval(pts[i],pts[i]), k12 = kk.eval(pts[i],pts[j]), k22 = kk.eval(pts[j],pts[j]);
+			double ref = k11 - 2*k12 + k22, tol = 1e-12*(std::fabs(k11) + 2*std::fabs(k12) + std::fabs(k22));
+			double v = kk.featureDistanceSqr(pts[i], pts[j]);
+			if(!(std::fabs(v - ref) <= tol)){ os << " !oracle feature-distance (" << i << "," << j << ") got=" << val(v) << " definition=" << val(ref); return os.str(); }
+			if(!(std::fabs(D(i,j) - ref) <= tol)){ os << " !oracle feature-distance-batch (" << i << "," << j << ") got=" << val(D(i,j)) << " definition=" << val(ref); return os.str(); }
+		}
+		return os.str();
+	}
+	std::string flags() const{
+		std::ostringstream os; os << "norm=" << (k->isNormalized() ? 1 : 0) << " np=" << k->numberOfParameters();
+		if(k->parameterVector().size() != k->numberOfParameters()) os << " !oracle parameter-vector-size";
+		return os.str() + claimOracle(*k);
+	}
+	// setParameterVector on the live object; the vector must read back (log/exp encodings: 1e-12 relative)
+	std::string setParams(std::vector<std::string> const& t){
+		if(t.size() - 1 != k->numberOfParameters()) return "bad-op";
+		RealVector p(t.size() - 1);
+		for(std::size_t i = 1; i != t.size(); ++i){ double v; if(!parseVal(t[i], v)) return "bad-op"; p(i-1) = v; }
+		k->setParameterVector(p);
+		std::string out = "ok";
+		RealVector q = k->parameterVector();
+		if(q.size() != p.size()) out += " !oracle parameter-vector-size";
+		else for(std::size_t i = 0; i != p.size(); ++i)
+			if(!(std::fabs(q(i) - p(i)) <= 1e-12*(1 + std::fabs(p(i))))){
+				std::ostringstream os; os << " !oracle parameter-roundtrip p=" << i << " set=" << p(i) << " got=" << q(i); out += os.str(); break;
+			}
+		return out + claimOracle(*k);
 	}
 	std::string gramOracle(RealMatrix const& M, std::size_t n1, std::size_t off2, std::size_t n2, double reg, bool square) const{
 		std::ostringstream os;
@@ -490,6 +567,30 @@ struct Session{
 		}
 		return out;
 	}
+	// op `gderiv s1 s2 ..`: calculateKernelMatrixParameterDerivative over the dataset batched as given, with a fixed
+	// symmetric weight matrix, against ONE weightedParameterDerivative call on the unbatched data (which dcheck ties
+	// to finite differences): the Gram-level derivative must not depend on the batching.  Oracle only (1e-9 relative).
+	std::string gramDeriv(std::vector<std::size_t> const& sizes) const{
+		std::size_t n = 0; for(std::size_t q: sizes){ if(q == 0) return "bad-op"; n += q; }
+		if(n > pts.size() || n == 0) return "bad-op";
+		if(!k->hasFirstParameterDerivative()) return "ok";
+		RealMatrix W(n,n);
+		for(std::size_t i = 0; i != n; ++i) for(std::size_t j = 0; j != n; ++j) W(i,j) = (double)(((i+1)*(j+1)*7 + (i+j)*3) % 5) - 2;
+		Data<I> d = dataset(0, sizes);
+		RealVector g = calculateKernelMatrixParameterDerivative(*k, d, W);
+		typename Batch<I>::type all = batch(0, n);
+		boost::shared_ptr<State> st = k->createState();
+		RealMatrix M; k->eval(all, all, M, *st);
+		RealVector ref; k->weightedParameterDerivative(all, all, W, *st, ref);
+		std::string out = "ok";
+		if(g.size() != k->numberOfParameters() || ref.size() != g.size()) return out + " !oracle gram-gradient-size";
+		double scale = 1; for(std::size_t p = 0; p != g.size(); ++p) if(std::isfinite(ref(p))) scale = std::max(scale, std::fabs(ref(p)));
+		for(std::size_t p = 0; p != g.size(); ++p)
+			if(!(std::fabs(g(p) - ref(p)) <= 1e-9*scale)){
+				std::ostringstream os; os << " !oracle gram-param-derivative p=" << p << " batched=" << g(p) << " unbatched=" << ref(p); return out + os.str();
+			}
+		return out;
+	}
 	// generic op dispatch; returns false if the op is not a session op
 	bool dispatch(std::vector<std::string> const& t, std::string& out) const{
 		std::string const& op = t[0];
@@ -498,9 +599,14 @@ struct Session{
 			if(!vh::allNat(t, 1, a) || a.size() != 2 || a[0] >= pts.size() || a[1] >= pts.size()){ out = "bad-op"; return true; }
 			out = op == "single" ? single(a[0], a[1]) : fdist(a[0], a[1]); return true;
 		}
-		if(op == "block" || op == "sblock"){
+		if(op == "block" || op == "sblock" || op == "fdistb"){
 			if(!vh::allNat(t, 1, a) || a.size() != 4){ out = "bad-op"; return true; }
-			out = block(a[0], a[1], a[2], a[3], op == "sblock"); return true;
+			out = op == "fdistb" ? fdistBlock(a[0], a[1], a[2], a[3]) : block(a[0], a[1], a[2], a[3], op == "sblock"); return true;
+		}
+		if(op == "flags"){ out = t.size() == 1 ? flags() : "bad-op"; return true; }
+		if(op == "gderiv"){
+			if(!vh::allNat(t, 1, a) || a.empty()){ out = "bad-op"; return true; }
+			out = gramDeriv(a); return true;
 		}
 		if(op == "gram"){
 			double reg;
@@ -541,6 +647,30 @@ template<> struct PointSets<RealVector>{
 		return true;
 	}
 };
+
+// op `unitvar s1 s2 ..`: the library's own user of ScaledKernel::setFactor.  A ScaledKernel is constructed
+// with the default factor over the current kernel, NormalizeKernelUnitVariance::train rescales it on the
+// current points (batched as given); afterwards everything the rescaled object claims must hold
+// (oracle only, the factor itself is behind BLAS sums: unit variance is checked to 1e-9).
+template<class I>
+std::string unitVar(Session<I> const& s, std::vector<std::size_t> const& sizes){
+	std::size_t n = 0; for(std::size_t q: sizes){ if(q == 0) return "bad-op"; n += q; }
+	if(n != s.pts.size() || n < 2) return "bad-op";
+	ScaledKernel<I> sk(s.k);
+	std::string out = "ok";
+	if(sk.isNormalized() != s.k->isNormalized() && sk.isNormalized()) out += s.claimOracle(sk);
+	UnlabeledData<I> data(s.dataset(0, sizes));
+	NormalizeKernelUnitVariance<I> trainer;
+	trainer.train(sk, data);
+	double f = sk.factor();
+	if(!(f > 0) || !std::isfinite(f)) return out;      // degenerate data (zero variance in feature space): precondition of the trainer
+	out += s.claimOracle(sk);
+	double tr = 0, mean = 0;
+	for(std::size_t i = 0; i != n; ++i){ tr += sk.eval(s.pts[i], s.pts[i]); for(std::size_t j = 0; j != n; ++j) mean += sk.eval(s.pts[i], s.pts[j]); }
+	double var = tr/n - mean/n/n;
+	if(f < 1e12 && !(std::fabs(var - 1) <= 1e-9)){ std::ostringstream os; os << " !oracle unit-variance " << var; out += os.str(); }
+	return out;
+}
 
 template<class I>
 int run(){
@@ -619,6 +749,25 @@ int run(){
 				for(std::size_t i: ds.pts) if(i >= disc->size()) inRange = false;
 				if(!inRange) out = "bad-op";
 				else if(!ds.dispatch(t, out)) out = "bad-op";
+			}
+			else if(vs.k && t[0] == "setfactor"){
+				// in-place reconfiguration: ScaledKernel::setFactor on the i-th ScaledKernel object (pre-order)
+				std::size_t i; double f;
+				if(t.size() != 3 || !parseNat(t[1], i) || !parseVal(t[2], f) || i >= builder->scaled.size() || !builder->scaled[i]) out = "bad-op";
+				else{ builder->scaled[i]->setFactor(f); out = "ok" + vs.claimOracle(*vs.k); }
+			}
+			else if(vs.k && t[0] == "setparams") out = vs.setParams(t);
+			else if(vs.k && t[0] == "adaptall"){
+				// every sub-kernel of every weighted sum becomes part of the parameter vector (inner sums first, the
+				// outer sums cache the parameter counts of their sub-kernels); not modelled: oracle-only cases
+				for(WeightedSumKernel<I>* w: builder->wsums) w->setAdaptiveAll(true);
+				std::ostringstream os; os << "ok np=" << vs.k->numberOfParameters();
+				out = os.str();
+				if(vs.k->parameterVector().size() != vs.k->numberOfParameters()) out += " !oracle parameter-vector-size";
+			}
+			else if(vs.k && t[0] == "unitvar"){
+				std::vector<std::size_t> a;
+				if(!vh::allNat(t, 1, a) || a.empty()) out = "bad-op"; else out = unitVar(vs, a);
 			}
 			else if(vs.k){ if(!vs.dispatch(t, out)) out = "bad-op"; }
 			else out = "no-kernel";
